@@ -644,7 +644,7 @@ def strat_env():
     return st.randoms(use_true_random=False).map(rand_env_case)
 
 
-RAND_COUNTS = {'clock': {'quick': 500, 'thorough': 12000},
+RAND_COUNTS = {'clock': {'quick': 350, 'thorough': 12000},
                'env': {'quick': 500, 'thorough': 24000}}
 
 
